@@ -51,6 +51,30 @@ def justifiedB (ch : Chain) (f : IP) : Bool :=
       (g.c.byp.any fun t => nearestDownSource ch (invokePos ch) (remapT g.bypassRmap t) == some f.pos) ||
       (g.recvTypes.any fun t => nearestUpSource ch g.pos t == some f.pos)))
 
+/-! ### what the final validation rests on (checked on the model's own state for every case, see
+     `NjectProofs/IncludeFix.lean`) -/
+
+/-- the providers whose include flag `localCheck` reads for `f` -/
+def IP.watch (f : IP) : List Nat :=
+  (f.usesIn ++ f.usesRecv ++ f.usesByp).flatMap (·.2)
+  ++ (if f.mcOut then f.usedByOut.flatMap (·.2) else [])
+  ++ (if f.mcRet then f.usedByRet.flatMap (·.2) else [])
+
+/-- dependencies are recorded in both directions: whoever `f`'s validity depends on lists `f` in its
+    `usedBy` (so that `f` is re-checked when that provider drops out) -/
+def depsSymB (ch : Chain) : Bool :=
+  (List.range ch.length).all fun j => (ch.get j).watch.all fun p => (ch.get p).usedBy.contains j
+
+/-- where the consumers recorded for a returned type come from: listed before the returner, and
+    they do receive that type; positions are list indices; returns must be consumed.  (Entries are
+    keyed on the type the consumer ASKED for; only keys that are returned types of `f` are ever looked
+    up -- an interface asked for and matched to a Loose concrete type sits under the interface.) -/
+def provOKB (ch : Chain) : Bool :=
+  (List.range ch.length).all fun i =>
+    let f := ch.get i
+    f.pos == i && f.mcRet &&
+    f.usedByRet.all fun e => !f.c.ret.contains e.1 || e.2.all fun q => decide (q < i) && (ch.get q).recvTypes.contains e.1
+
 def allJustifiedB (ch : Chain) : List Nat :=
   (ch.filter fun f => f.inc && !justifiedB ch f).map (·.c.id)
 
